@@ -66,6 +66,16 @@ def coherent(m):
     return None
 
 
+def _symmetric(m):
+    from ..oracle import symmetry
+    try:
+        pl = symmetry.plain_from_chython(m)
+        orb = symmetry.orbits(pl[0], pl[1])
+    except Exception:
+        return False
+    return len(set(orb.values())) < len(orb)
+
+
 def _warm(m):
     for f in (str, lambda x: x.sssr, lambda x: x.atoms_rings_sizes, lambda x: x.connected_components, lambda x: x.atoms_order, lambda x: x.brutto, lambda x: x.linear_hash_set(),
               lambda x: x.morgan_hash_set(), lambda x: x.aromatic_rings, lambda x: x.not_special_connectivity):
@@ -82,6 +92,7 @@ def check_ops(acc, m0, tag, bad, ops, perms=(), taut_perms=False):
         return
     s0, hv0, h0, c0 = snap(m0), heavy(m0), total_h(m0), charge(m0)
     results = {}
+    results_str = {}
     for name in ops:
         f = OPS[name]
         acc.states += 1
@@ -127,6 +138,10 @@ def check_ops(acc, m0, tag, bad, ops, perms=(), taut_perms=False):
         except Exception as e:
             bad('second %s raised %s' % (name, type(e).__name__), op=name)
         results[name] = s1
+        try:
+            results_str[name] = str(m)
+        except Exception:
+            results_str[name] = None
         acc.outcomes[(name, s1 != s0)] += 1
     # inverse pair
     acc.transitions += 2
@@ -181,6 +196,11 @@ def check_ops(acc, m0, tag, bad, ops, perms=(), taut_perms=False):
                 exp = (tuple(sorted(t[1:] for t in exp[0])), len(exp[1]))
                 got = (tuple(sorted(t[1:] for t in got[0])), len(got[1]))
             if got != exp:
+                # a deterministic choice of ONE localised form of a symmetric input cannot commute with every renumbering (an automorphism of the input would have
+                # to fix the output): for inputs with constitutionally equivalent atoms the outputs must be the same molecule, for all others the same labelled graph
+                if _symmetric(m0) and results_str.get(name) is not None and str(m) == results_str[name]:
+                    acc.ood['symmetric input: outputs are one molecule, placed differently by an automorphism of the input'] += 1
+                    continue
                 bad('%s result depends on atom numbering%s' % (name, ' / storage order' if storage == 'reversed' else ''), op=name, numbering=list(p), got=str(m))
                 break
 
@@ -343,7 +363,10 @@ def run_corpus(shard):
                                      'CP(C)(C)=O', 'N#[N+][O-]', 'CN=[N+]=[N-]', 'C[N+]#N', 'Cn1cc[n+](C)c1', 'OC1=NC(O)=CC=N1', 'O=c1cc[nH]c(=O)[nH]1', '[CH3]', 'C[O]', 'CC(=O)O[Na]', 'Cl[Mg]C', 'C[Li]',
                                      # two competing sites for one rule (priority between sibling rules must not depend on storage order)
                                      'CON(C)[CH+]N(C)C', 'CN(C)[CH+]N(C)OC', 'CN(C)[CH+]N(C)N(C)C', 'CN(C)[C+](C)N(C)O', 'C[N+](C)=CN(C)OC', 'CN(C)C=[N+](C)OC', 'C[S+](C)[CH-]C(=O)C[CH-][S+](C)C',
-                                     '[O-][N+](=O)c1ccc(cc1)N(=O)=O', 'CN(=O)=O.C[N+]([O-])=O', 'C[N+]#[C-].[C-]#[N+]C', 'CS(=O)C.C[S+](C)[O-]')]
+                                     '[O-][N+](=O)c1ccc(cc1)N(=O)=O', 'CN(=O)=O.C[N+]([O-])=O', 'C[N+]#[C-].[C-]#[N+]C', 'CS(=O)C.C[S+](C)[O-]',
+                                     # cyclopentadienide-type anions: plain, substituted, benzo-fused (the canonical position of the charge must be a fixed point)
+                                     '[CH-]1C=CC=C1', 'C[C-]1C=CC=C1', '[CH-]1C=Cc2ccccc12', 'C1=CC2=CC=CC=C2[CH-]1', '[CH-]1c2ccccc2-c2ccccc12', '[Na+].[CH-]1C=Cc2ccccc12', '[Fe+2].[CH-]1C=Cc2ccccc12.[CH-]1C=Cc2ccccc12',
+                                     'C[C-]1C=Cc2ccccc12')]
     rows += [('taut-stereo', s) for s in inputs.tautomer_stereo_family()]
     for i, (fam, s) in enumerate(rows):
         if i % nsh != k:
